@@ -1,21 +1,28 @@
 #!/usr/bin/env python3
-"""Regenerates the (committed) Properties_*.v files from the operation registry:  ./trace_gG_nN list | mkprops.py <ID> <imports...>
-Each theorem only restates generated lemmas (exact ...)."""
+"""Regenerates the (committed) Properties_*.v files from the operation registry:
+   (for every group G, dimension N:  echo GROUP G; ./trace_gG_nN list) | mkprops.py <ID> <imports...>
+Each theorem only restates generated lemmas (exact ...).  C02: one file per group for the quick-tier theorems (compiled in
+parallel, each importing the generated modules of its group only)."""
 import sys, collections
 pid = sys.argv[1]
 mods = sys.argv[2:]
 ops = collections.OrderedDict()
+group_of = {}
+cur = 0
 for l in sys.stdin:
     t = l.split()
+    if t and t[0] == "GROUP":
+        cur = int(t[1])
     if t and t[0] == "OP":
         ops.setdefault(t[1], []).append((int(t[2]), "" if t[3] == "-" else t[3], t[4], int(t[5]), " ".join(t[6:])))
+        group_of[t[1]] = cur
 def stmt(name, N, kin, kout, hyp):
     ls = " ".join("abcdefgh"[k] for k in range(len(kin)))
     Ns = "%d%%nat" % N
     s = "flat_%s %s (spec_%s %s%s)" % (kout, Ns, name, Ns, "".join(" (full_%s %s %s)" % (k, Ns, "abcdefgh"[i]) for i, k in enumerate(kin)))
     h = (hyp.replace("$N", Ns) + " -> ") if hyp else ""
     return "(%s%s_%d%s = %s)" % (h, name, N, (" " + ls) if ls else "", s), ls
-def emit(fn, sel, title, extra_imports=""):
+def emit(fn, sel, title, extra_imports="", mods=mods):
     out = ["(* %s -- %s (statements only; every proof is `exact` of lemmas generated and proved per component).\n   Regenerate with mkprops.py when the operation registry of trace.cxx changes. *)" % (pid, title),
            "From Coq Require Import Reals List.", "Require Import TensorIndex %sSpec %s." % (pid, " ".join(mods)), extra_imports,
            "Import ListNotations.", "Local Open Scope R_scope.", ""]
@@ -40,11 +47,18 @@ def emit(fn, sel, title, extra_imports=""):
     open(fn[0], "w").write("\n".join(out))
     print(fn[0], n, "theorems")
 if pid == "C02":
-    emit(("coq/Properties_C02.v", ""), lambda n, i: i[3] == 0 and n != "A_convert", "tensor algebra = index notation, core set (quick and thorough tiers)")
-    emit(("coq/Properties_C02_full.v", "_full"), lambda n, i: i[3] == 1 and n not in ("A_convert", "B_d2det"), "remaining (expensive) instances, thorough tier")
+    for g in sorted(set(group_of.values())):
+        emit(("coq/Properties_C02_g%d.v" % g, ""), lambda n, i: i[3] == 0 and n != "A_convert" and group_of[n] == g,
+             "tensor algebra = index notation, core set (quick and thorough tiers), group %d of trace.cxx" % g,
+             mods=[m for m in mods if ("_g%d_" % g) in m])
+    for g in sorted(set(group_of.values())):
+        emit(("coq/Properties_C02_full_g%d.v" % g, "_full"), lambda n, i: i[3] == 1 and n not in ("A_convert", "B_d2det") and group_of[n] == g,
+             "remaining (expensive) instances, thorough tier, group %d of trace.cxx" % g, mods=[m for m in mods if ("_g%d_" % g) in m])
     # (the committed file imports only the three modules that hold B_d2det_N)
-    emit(("coq/Properties_C02_d2det.v", "_full"), lambda n, i: n == "B_d2det", "computeDeterminantSecondDerivative(tensor) (thorough tier, used when the finding shared with C06 is absent)")
-    emit(("coq/Properties_C02_convert.v", ""), lambda n, i: n == "A_convert", "st2tost2::convert (used when finding F22 is absent)")
+    emit(("coq/Properties_C02_d2det.v", "_full"), lambda n, i: n == "B_d2det", "computeDeterminantSecondDerivative(tensor) (thorough tier, used when the finding shared with C06 is absent)",
+         mods=[m for m in mods if "_g2_" in m])
+    emit(("coq/Properties_C02_convert.v", ""), lambda n, i: n == "A_convert", "st2tost2::convert (used when finding F22 is absent)",
+         mods=[m for m in mods if "_g1_" in m])
 else:
     F23 = "DS_DF_from_DS_DEGL"
     emit(("coq/Properties_%s.v" % pid, ""), lambda n, i: i[3] == 0 and n != F23, "traced conversions = chain-rule formulas in index notation, core set")
